@@ -9,8 +9,6 @@
 import XC.Proofs.C24_Codec
 namespace XC.C24
 
-deriving instance DecidableEq for Except
-
 /-! ## mpint -/
 
 /-- `marshalInt n` is the RFC 4251 mpint of `n`, for every integer: the body denotes `n` in two's
@@ -320,5 +318,61 @@ example : decode [52] = .ok ("userAuthSuccessMsg", []) := by decide
 theorem decode_rejects_unknown (t : UInt8) (tl : Bytes) (h : decodeType t = none) :
     decode (t :: tl) = .error .wrongType := by
   simp [decode, h]
+
+
+/-- bytes behind a complete packet are rejected by the decoder too (message types without a `rest` field;
+    type 52 is `decode_success_rejects_trailing`) -/
+theorem decode_rejects_trailing (p e : Bytes) (name : String) (vs : List Val) (s : Schema)
+    (hok : decode p = .ok (name, vs)) (hs : schemaOf name = some s) (hnr : Kind.rest ∉ s.fields)
+    (hne : e ≠ []) (hlen : (p ++ e).length < 4294967296) :
+    ∃ er, decode (p ++ e) = .error er := by
+  cases p with
+  | nil => simp [decode] at hok
+  | cons t tl =>
+    simp only [decode, List.cons_append] at hok ⊢
+    cases hd : decodeType t with
+    | none => simp [hd] at hok
+    | some nm =>
+      simp only [hd] at hok ⊢
+      by_cases h52 : t = 52
+      · subst h52
+        have hee : (tl ++ e).isEmpty = false := by
+          cases tl <;> cases e <;> simp_all
+        simp [hee]
+      · have hne52 : (t == 52) = false := beq_false_of_ne h52
+        simp only [hne52, Bool.false_eq_true, if_false] at hok ⊢
+        cases hsn : schemaOf nm with
+        | none => simp [hsn] at hok
+        | some s' =>
+          simp only [hsn] at hok ⊢
+          cases hu : unmarshal s' (t :: tl) with
+          | error er => simp [hu] at hok
+          | ok vs' =>
+            simp only [hu, Except.ok.injEq, Prod.mk.injEq] at hok
+            obtain ⟨hn, _⟩ := hok
+            subst hn
+            rw [hs] at hsn
+            simp only [Option.some.injEq] at hsn
+            subst hsn
+            have := unmarshal_rejects_trailing s (t :: tl) e vs' hu hnr hne (by simpa using hlen)
+            simp only [List.cons_append] at this
+            exact ⟨.parse, by simp [this]⟩
+
+/-! ## non-vacuity: concrete instances of the main statements -/
+
+example : parseInt (marshalInt (-32769) ++ [7]) = some (-32769, [7]) ∧ intLength (-32769) = 7 ∧
+    twos [0xff, 0x7f, 0xff] = -32769 := by
+  refine ⟨parseInt_marshalInt_id (-32769) [7] (by decide +kernel), by decide +kernel, by decide +kernel⟩
+
+example : decode [93, 0, 0, 0, 1, 0, 0, 0, 2] = .ok ("windowAdjustMsg", [.u32 1, .u32 2]) ∧
+    decode [93, 0, 0, 0, 1, 0, 0, 0, 2, 9] = .error .parse ∧ decode [] = .error .short ∧
+    decode [52, 0] = .error .parse ∧ decode [200] = .error .wrongType := by decide
+
+example : ∃ er, decode ([93, 0, 0, 0, 1, 0, 0, 0, 2] ++ [9]) = .error er :=
+  decode_rejects_trailing [93, 0, 0, 0, 1, 0, 0, 0, 2] [9] "windowAdjustMsg" [.u32 1, .u32 2] ⟨[93], [.u32, .u32]⟩
+    (by decide) (by decide) (by decide) (by decide) (by decide)
+
+example : unmarshal ⟨[20, 21], [.u8]⟩ [0, 5] = .error .wrongType :=
+  unmarshal_rejects_wrong_type ⟨[20, 21], [.u8]⟩ 0 [5] (by decide) (by decide) (Or.inr rfl)
 
 end XC.C24
